@@ -10,8 +10,10 @@ VERIF = os.path.dirname(os.path.dirname(os.path.abspath(__file__)))
 REPO = os.environ.get("VERIF_REPO", "/repo")
 SPEC = os.path.join(VERIF, "spec")
 WORK = os.path.join(VERIF, ".work")
-EVID = os.path.join(VERIF, "evidence")
-REPLAYS = os.path.join(VERIF, "replays")
+# runs against a scratch copy of the repository (seeded-change experiments) must not overwrite the evidence of the real tree
+_SCRATCH = os.path.abspath(REPO) != "/repo"
+EVID = os.path.join(WORK, "scratch_evidence") if _SCRATCH else os.path.join(VERIF, "evidence")
+REPLAYS = os.path.join(WORK, "scratch_replays") if _SCRATCH else os.path.join(VERIF, "replays")
 PY = "/venv/bin/python"
 
 # hooks inside the repository are enabled for every check
